@@ -82,20 +82,26 @@ theorem isEmpty_iff_forall_not_mem {l : List Idx} : l.isEmpty = true ↔ ∀ x, 
 
 /-- A sweep whose step acts separately on the two levels is a level-wise map, provided the
 "lower" action is the identity on the last level (which the loop `range(L-1)` never visits). -/
-theorem sweep_eq_mapFrom {α : Type} (f g : Nat → α → α) :
+theorem sweepGo_eq_mapFrom {α : Type} (f g : Nat → α → α) :
     ∀ (rest : List α) (lv : Nat) (a : α), (∀ x, f (lv + rest.length) x = x) →
-      sweep (fun lv a b => (f lv a, g (lv + 1) b)) lv (a :: rest)
+      sweepGo (fun lv a b => (f lv a, g (lv + 1) b)) lv a rest
         = f lv a :: mapFrom (fun i b => f i (g i b)) (lv + 1) rest
   | [], lv, a, h => by
     have := h a
     simp only [List.length_nil, Nat.add_zero] at this
-    simp [sweep, mapFrom, this]
+    simp [sweepGo, mapFrom, this]
   | b :: rest, lv, a, h => by
-    have ih := sweep_eq_mapFrom f g rest (lv + 1) (g (lv + 1) b)
+    have ih := sweepGo_eq_mapFrom f g rest (lv + 1) (g (lv + 1) b)
       (by intro x; have := h x; simp only [List.length_cons] at this
           rwa [show lv + 1 + rest.length = lv + (rest.length + 1) by omega])
-    simp only [sweep, mapFrom]
+    simp only [sweepGo, mapFrom]
     rw [ih]
+
+theorem sweep_eq_mapFrom {α : Type} (f g : Nat → α → α)
+    (rest : List α) (lv : Nat) (a : α) (h : ∀ x, f (lv + rest.length) x = x) :
+    sweep (fun lv a b => (f lv a, g (lv + 1) b)) lv (a :: rest)
+      = f lv a :: mapFrom (fun i b => f i (g i b)) (lv + 1) rest :=
+  sweepGo_eq_mapFrom f g rest lv a h
 
 theorem mapFrom_mapFrom {α β γ : Type} (h1 : Nat → α → β) (h2 : Nat → β → γ) :
     ∀ (l : List α) (lv : Nat), mapFrom h2 lv (mapFrom h1 lv l) = mapFrom (fun i a => h2 i (h1 i a)) lv l
